@@ -20,7 +20,6 @@ import (
 	"strings"
 	"testing"
 	"time"
-	"unicode"
 
 	"github.com/tucats/ego/internal/verifh/srvfix"
 	"github.com/tucats/ego/internal/verifh/vh"
@@ -213,7 +212,7 @@ func genFloat32(rng *rand.Rand, wantValid bool) wval {
 }
 
 var c18Strings = []string{
-	"", "a", " ", "  lead and trail  ", "O'Brien", "''", "'", "\"", "\"quoted\"", "a\"b'c", `back\slash`, `\`, `\\`, `\'`, `\"`, `'\''`, "%", "_", "100%_done",
+	"", "a", " ", "  lead and trail  ", " lead", "trail ", "\ttab-lead", "newline-trail\n", "  ", "\u00a0nbsp-edges\u00a0", "\u3000wide-space\u3000", "O'Brien", "''", "'", "\"", "\"quoted\"", "a\"b'c", `back\slash`, `\`, `\\`, `\'`, `\"`, `'\''`, "%", "_", "100%_done",
 	"'); DROP TABLE rt; --", "' OR '1'='1", "x' UNION SELECT sval FROM secret --", "/* c */ -- d", "semi;colon", "$1", "?", "?1", ":name", "@v",
 	"tab\there", "line\nbreak", "cr\rlf\r\n", "\u00e9\u00e8\u00ea", "Zo\u00eb", "\u4e2d\u6587", "\U0001F600", "\U0001F468\u200d\U0001F469\u200d\U0001F467", "e\u0301", "\u202eRTL", "\ufeffbom", "\u2028ls", "\uffff", "\U0010FFFF",
 	"123", "-5", "1e5", "0x10", "true", "false", "null", "NULL", "nil", "NaN", "2024-06-15T12:00:00Z", "{\"json\":[1,2,{\"a\":null}]}", "[1,2,3]",
@@ -401,20 +400,6 @@ func canBeInvalid(ty string) bool {
 	}
 
 	return false
-}
-
-// keyMinify: white space inside string values of a response disappears after a string that ends in a backslash
-// (egostrings.JSONMinify, reported under C19); the stored value is intact.
-const keyMinify = "response:whitespace-stripped-after-trailing-backslash"
-
-func stripSpace(s string) string {
-	return strings.Map(func(r rune) rune {
-		if unicode.IsSpace(r) {
-			return -1
-		}
-
-		return r
-	}, s)
 }
 
 var timeLayouts = []string{time.RFC3339Nano, "2006-01-02 15:04:05.999999999-07:00", "2006-01-02T15:04:05.999999999", "2006-01-02 15:04:05.999999999", "2006-01-02"}
@@ -692,11 +677,6 @@ func TestC18(t *testing.T) {
 			}
 
 			key := vkey(ty, row.Variant, w, what)
-
-			if g, isStr := got["c_"+ty].(string); isStr && w.Kind == "string" && g == stripSpace(w.S) {
-				// the value is intact in the database; the response lost the white space inside it
-				key = keyMinify
-			}
 
 			r.Violate(vh.Violation{Key: key,
 				Desc:     fmt.Sprintf("column type %s, written %s through %s, read back %s (%s)", ty, vh.Trunc(w.Lit, 200), row.Variant, vh.Trunc(obs, 200), how),
@@ -982,10 +962,6 @@ func TestC18(t *testing.T) {
 			if known[vkey(ty, variant, w, what)] {
 				return true
 			}
-		}
-
-		if known[keyMinify] && w.Kind == "string" && strings.HasSuffix(w.S, "\\") {
-			return true
 		}
 
 		return false
@@ -1348,7 +1324,8 @@ func TestC18(t *testing.T) {
 		judge(row, gr, gr != nil)
 	}
 
-	// the response minifier: a string ending in a backslash, then a string with white space in the next row
+	// the response writer: a string ending in a backslash, then a string with white space in the next row
+	// (util.WriteJSON's minifier used to strip the white space of every string after such a one; repaired in /repo by 62e34c05)
 	{
 		a, b := safeRow("put", ""), safeRow("put", "")
 		a.Vals["c_string"] = wval{Lit: `"a\\"`, Class: "backslash", Kind: "string", S: "a\\", Valid: true}
